@@ -234,6 +234,7 @@ func cgroupScenario(s *Sim, params map[string]string) {
 		at := time.Duration(t.Range("fault", 1000, int(endAt/time.Millisecond))) * time.Millisecond
 		kind := Pick(t, "fault", "added", "added", "removed", "topic-deleted")
 		s.After(at, "partition-"+kind, func() {
+			top.NoteChange(s.Now())
 			switch kind {
 			case "added":
 				p := &Partition{Topic: "ct", ID: int32(len(top.Parts)), Leader: cl.Brokers[0].ID, Replicas: []int32{cl.Brokers[0].ID}, ISR: []int32{cl.Brokers[0].ID}}
